@@ -476,6 +476,10 @@ class ClientDriver(ReorgDriver):
             cp = op.get('cp', 0)
             cpv = (cp % (d.height + 2) or d.height) if cp else 0     # mostly a valid checkpoint, sometimes tip+1
             h = op['h'] % (cpv + 1) if cpv and op['h'] % 7 else op['h'] % (d.height + 3)
+            if 'hfix' in op:
+                # a storm: the checkpoint stays at the height that was the tip when the storm began
+                cpv = op['hfix']
+                h = max(0, cpv - (op.get('alt', 0) + op.get('pos', 0)) % 3)
             c.send('blockchain.block.header', [h, cpv] if cp else [h],
                    cb=(lambda rec: self.judge_inflight_header_proof(rec, h, cpv)) if cpv else None)
 
@@ -1249,6 +1253,24 @@ class ProofsFamily(StaleFamily):
                                  rep=rng.choice([30, 45, 60]), every=rng.choice([0.15, 0.2, 0.3])))
             plan.append(dict(op='fork', depth=d, extra=1, ntx=[big() for _ in range(d)] + [2], remine=0.0,
                              at=tq, seed=rng.getrandbits(32)))
+            plan.append(dict(op='settle'))
+        elif rng.random() < 0.3:
+            # motif: header proofs with the old tip as checkpoint all through a fork, while the block processor's
+            # own backup jobs are slow (parked between truncating the header cache, rolling back the history and
+            # committing the lower height)
+            k, plan = case['knobs'], case['plan']
+            nclients = 1 + max([op['c'] for op in plan if 'c' in op] or [0])
+            k['stall_boost'] = ('backup_block', rng.choice([0.3, 0.6, 0.9]))
+            k['stall_p'] = 0.0
+            k['preempt'] = True
+            d = rng.choice([1, 1, 2, 3])
+            tq = round(rng.uniform(0.3, 3.0), 2)
+            for _ in range(rng.randint(1, 2)):
+                plan.append(dict(op='c_query', c=rng.randrange(nclients), m='header', back=rng.randrange(d), h=0,
+                                 cp=1, pos=rng.randrange(3), at=round(max(0.01, tq - rng.uniform(0.0, 1.0)), 2),
+                                 alt='rotate', rep=rng.choice([30, 60, 90]), every=rng.choice([0.1, 0.2, 0.4])))
+            plan.append(dict(op='fork', depth=d, extra=rng.choice([0, 1, 1, 2]), ntx=ntx_list(rng, d + 2),
+                             remine=rng.choice([0.0, 0.5]), at=tq, seed=rng.getrandbits(32)))
             plan.append(dict(op='settle'))
         return case
 
